@@ -132,21 +132,39 @@ def table(tree, wrapper, target):
     }
 
 
+def _module_literal(tree, name):
+    for node in tree.body:
+        if isinstance(node, (ast.Assign, ast.AnnAssign)):
+            tg = node.targets if isinstance(node, ast.Assign) else [node.target]
+            if any(isinstance(t, ast.Name) and t.id == name for t in tg) and node.value is not None:
+                return node.value
+    return None
+
+
+def _eval_method_list(tree, comp):
+    """evaluate the right-hand side of `method[.lower()] in <comp>` to a list of strings, or None"""
+    try:
+        if isinstance(comp, ast.Name):
+            val = _module_literal(tree, comp.id)
+            return None if val is None else _eval_method_list(tree, val)
+        if isinstance(comp, ast.Call) and isinstance(comp.func, ast.Attribute) and comp.func.attr == "split":
+            base = ast.literal_eval(comp.func.value)
+            sep = ast.literal_eval(comp.args[0]) if comp.args else None
+            return [str(x) for x in base.split(sep)]
+        return [str(x) for x in ast.literal_eval(comp)]
+    except Exception:  # noqa: BLE001
+        return None
+
+
 def grad_methods(tree):
-    """the literal list of method names for which `minimize` asks for the gradient (`method in "...".split(", ")`)"""
+    """the list of method names for which `minimize` asks for the gradient (`method… in <list>`);
+    `["<unresolved>"]` when the test cannot be read (the Lean obligation then fails)"""
     fn = _find_func(tree, "minimize")
     for node in ast.walk(fn):
         if isinstance(node, ast.Compare) and len(node.ops) == 1 and isinstance(node.ops[0], ast.In) and "method" in _names(node.left):
-            comp = node.comparators[0]
-            try:
-                if isinstance(comp, ast.Call) and isinstance(comp.func, ast.Attribute) and comp.func.attr == "split":
-                    base = ast.literal_eval(comp.func.value)
-                    sep = ast.literal_eval(comp.args[0]) if comp.args else None
-                    return [str(x) for x in base.split(sep)]
-                return [str(x) for x in ast.literal_eval(comp)]
-            except Exception as e:  # noqa: BLE001
-                raise common.Infra(f"solver.minimize: cannot evaluate the gradient-method list: {e}") from e
-    raise common.Infra("solver.minimize: no `method in <list>` test found")
+            got = _eval_method_list(tree, node.comparators[0])
+            return got if got is not None else ["<unresolved>"]
+    return ["<unresolved>"]
 
 
 def read_tables(repo: Path | None = None):
